@@ -150,6 +150,7 @@ pub fn record_wm(seed: u64, thorough: bool, path: &str) -> Value {
         let ty = TYPES[o % 5];
         let (wm, core) = match guarded(|| build(&vals, ty)) { Ok(Some(b)) => b, _ => { out.push(json!({"e": "def", "vals": vals, "type": ty, "built": "PANIC"})); continue; } };
         out.push(json!({"e": "def", "vals": vals, "type": ty, "built": "ok", "obs": [wm.len(), wm.width(), core.len(), core.width()]}));
+        let d = out.lines.len();
         let nq = if thorough { 40 } else { 25 };
         let mut idx: Vec<usize> = vec![0, 1, len - 1, len, len + 1, 2 * len];
         for _ in 0..nq { idx.push(rng.below(len + 2)); }
@@ -160,21 +161,57 @@ pub fn record_wm(seed: u64, thorough: bool, path: &str) -> Value {
         for op in ["inv", "down"] {
             let mut all = idx.clone(); all.extend(huge.iter());
             let rs: Vec<Value> = all.iter().map(|a| query(&wm, &core, op, *a, 0)).collect();
-            out.push(json!({"e": "q", "op": op, "v": 0, "a": all.iter().map(|a| enc_arg(*a)).collect::<Vec<Value>>(), "r": rs}));
+            out.push(json!({"e": "q", "d": d, "op": op, "v": 0, "a": all.iter().map(|a| enc_arg(*a)).collect::<Vec<Value>>(), "r": rs}));
             queries += all.len();
         }
         for v in values.iter() {
             for op in ["rank", "sel", "seli", "pred", "succ", "down_with", "up_with"] {
                 let mut all = idx.clone(); all.extend(huge.iter());
                 let rs: Vec<Value> = all.iter().map(|a| query(&wm, &core, op, *a, *v)).collect();
-                out.push(json!({"e": "q", "op": op, "v": v, "a": all.iter().map(|a| enc_arg(*a)).collect::<Vec<Value>>(), "r": rs}));
+                out.push(json!({"e": "q", "d": d, "op": op, "v": v, "a": all.iter().map(|a| enc_arg(*a)).collect::<Vec<Value>>(), "r": rs}));
                 queries += all.len();
             }
-            out.push(json!({"e": "q", "op": "contains", "v": v, "a": [0], "r": [query(&wm, &core, "contains", 0, *v)]}));
-            out.push(json!({"e": "iter", "v": v, "items": iter_items(&wm, *v)}));
+            out.push(json!({"e": "q", "d": d, "op": "contains", "v": v, "a": [0], "r": [query(&wm, &core, "contains", 0, *v)]}));
+            out.push(json!({"e": "iter", "d": d, "v": v, "items": iter_items(&wm, *v)}));
         }
         let items: Vec<u64> = wm.iter().collect();
-        out.push(json!({"e": "items", "items": items}));
+        out.push(json!({"e": "items", "d": d, "items": items}));
+    }
+    // A long vector whose levels have long select superblocks (>= 83 521 positions spanned by 4096 occurrences):
+    // a few rare symbols among frequent ones, dense at the start and sparse afterwards, and the reverse.
+    for rep in 0..(if thorough { 4 } else { 2 }) {
+        let len = 120_000 + rng.below(30_000);
+        let vals: Vec<u64> = if rep % 2 == 0 {
+            // A: 30 000 items over the whole alphabet (several full, short superblocks of every side), then the symbols 1 and 4
+            //    become rare: the last superblock of their side is long and follows short ones.
+            (0..len).map(|i| if i < 30_000 { *rng.pick(&[1u64, 4, 9, 12, 13]) } else if rng.chance(1, 9000) { *rng.pick(&[1u64, 4]) } else { *rng.pick(&[9u64, 12, 13]) }).collect()
+        } else {
+            // B: the symbols 1 and 4 occur a handful of times only, the first time far from position 0: a single long
+            //    superblock whose start is not 0.
+            let first = rng.range(5000, 9000);
+            (0..len).map(|i| if i >= first && (i - first) % 23_456 == 0 { if (i / 23_456) % 2 == 0 { 1 } else { 4 } } else { *rng.pick(&[9u64, 12, 13]) }).collect()
+        };
+        let (wm, core) = match guarded(|| build(&vals, "u8")) { Ok(Some(b)) => b, _ => continue };
+        out.push(json!({"e": "def", "vals": vals, "type": "u8", "built": "ok", "obs": [wm.len(), wm.width(), core.len(), core.width()]}));
+        let d = out.lines.len();
+        for v in [1u64, 4, 9, 13, 2] {
+            let count = vals.iter().filter(|x| **x == v).count();
+            let mut ranks: Vec<usize> = vec![0, 1, 2, count.saturating_sub(1), count, count + 1, 4095, 4096, 4097, 8191, 8192];
+            for _ in 0..12 { ranks.push(rng.below(count + 2)); }
+            ranks.sort(); ranks.dedup();
+            let mut idx: Vec<usize> = vec![0, 1, 8999, 9000, 9001, len - 1, len, len + 1];
+            for _ in 0..10 { idx.push(rng.below(len)); }
+            for (op, args) in [("sel", &ranks), ("seli", &ranks), ("rank", &idx), ("pred", &idx), ("succ", &idx), ("up_with", &ranks), ("down_with", &idx)] {
+                let rs: Vec<Value> = args.iter().map(|a| query(&wm, &core, op, *a, v)).collect();
+                out.push(json!({"e": "q", "d": d, "op": op, "v": v, "a": args.iter().map(|a| enc_arg(*a)).collect::<Vec<Value>>(), "r": rs}));
+                queries += args.len();
+            }
+        }
+        let idx: Vec<usize> = (0..20).map(|_| rng.below(len)).collect();
+        for op in ["inv", "down"] {
+            let rs: Vec<Value> = idx.iter().map(|a| query(&wm, &core, op, *a, 0)).collect();
+            out.push(json!({"e": "q", "d": d, "op": op, "v": 0, "a": idx.iter().map(|a| enc_arg(*a)).collect::<Vec<Value>>(), "r": rs}));
+        }
     }
     out.write(path);
     json!({"objects": objects, "queries": queries, "events": out.lines.len(), "sample": serde_json::from_str::<Value>(&out.lines[2]).unwrap()})
